@@ -334,6 +334,8 @@ fn cleanup_escape_ws(parts: &mut [StringPart]) {
         if let StringPart::Raw(s) = item
             && s.starts_with('\\')
             && s.ends_with(' ')
+            // An escaped space is not a hex escape with a terminator.
+            && s != "\\ "
         {
             match t_iter.peek() {
                 None => {
